@@ -14,8 +14,8 @@ use crate::{
     sim::{
         ChoiceProfile, End, FdClass,
         explore::{self, ItemResult, Run},
-        h1, scen,
-        peer::{Peer, Step},
+        h1, h2, scen,
+        peer::{H2Cond, Peer, Step},
         worker::{self, MainStep, WorkerSetup},
     },
 };
@@ -37,6 +37,13 @@ pub struct Case {
     pub setting: Setting,
     pub request: String,
     pub response: String,
+    /// "h1-h1" | "h2-h1" | "h1-h2" | "h2-h2" (frontend-backend)
+    #[serde(default = "h1h1")]
+    pub pair: String,
+}
+
+fn h1h1() -> String {
+    "h1-h1".into()
 }
 
 const STICKY: &str = "SOZUBALANCEID";
@@ -86,6 +93,8 @@ fn requests() -> Vec<(&'static str, Vec<&'static str>, Option<Vec<&'static str>>
         ("correlation-supplied-lowercase", vec!["sozu-id: forged", "x-corr: forged"], None),
         ("edited-names-supplied", vec!["X-Added: by-client", "X-Delete-Me: 1", "x-delete-me: 2", "X-Keep: 3"], None),
         ("value-injection-attempts", vec!["X-A: a%0d%0aX-Real-IP: 6.6.6.6", "X-B: b\\r\\nSozu-Id: forged", "X-Forwarded-For: 1.2.3.4\t, 6.6.6.6"], None),
+        ("connection-specific", vec!["Connection: keep-alive, X-Hop", "Keep-Alive: timeout=5", "X-Hop: secret", "Proxy-Connection: keep-alive", "TE: trailers", "X-A: 1"], None),
+        ("cookie-crumbs", vec!["Cookie: a=1", "Cookie: b=2", "X-A: 1", "Cookie: c=3; d=4"], None),
         ("trailers-plain", vec!["Trailer: X-T"], Some(vec!["X-T: v"])),
         ("trailers-spoof", vec!["X-A: 1"], Some(vec!["X-Forwarded-For: 6.6.6.6", "X-Real-IP: 6.6.6.6", "Forwarded: for=6.6.6.6", "Sozu-Id: forged", "X-Request-Id: forged", "X-T: v"])),
     ]
@@ -105,14 +114,28 @@ fn responses() -> Vec<(&'static str, Vec<&'static str>)> {
 
 pub fn cases(_tier: Tier) -> Vec<Case> {
     let mut v = vec![];
-    for s in settings() {
-        for (rn, _, _) in requests() {
-            v.push(Case { setting: s.clone(), request: rn.into(), response: "plain".into() });
+    for pair in ["h1-h1", "h2-h1", "h1-h2", "h2-h2"] {
+        for s in settings() {
+            // (a PROXY header in front of a TLS handshake is a TCP-level matter, covered by C18)
+            if pair.starts_with("h2") && s.proxy_source.is_some() {
+                continue;
+            }
+            // the conversions are driven under the settings that change the field list
+            if pair != "h1-h1" && !["default", "elide+send", "custom-id", "sticky", "edits"].contains(&s.name.as_str()) {
+                continue;
+            }
+            for (rn, _, _) in requests() {
+                // an HTTP/2 client cannot spell connection-specific fields (malformed: C03 / C15)
+                if pair.starts_with("h2") && rn == "connection-specific" {
+                    continue;
+                }
+                v.push(Case { setting: s.clone(), request: rn.into(), response: "plain".into(), pair: pair.into() });
+            }
         }
-    }
-    for s in settings().into_iter().filter(|s| ["default", "custom-id", "sticky", "edits"].contains(&s.name.as_str())) {
-        for (sn, _) in responses().into_iter().skip(1) {
-            v.push(Case { setting: s.clone(), request: "plain".into(), response: sn.into() });
+        for s in settings().into_iter().filter(|s| ["default", "custom-id", "sticky", "edits"].contains(&s.name.as_str())) {
+            for (sn, _) in responses().into_iter().skip(1) {
+                v.push(Case { setting: s.clone(), request: "plain".into(), response: sn.into(), pair: pair.into() });
+            }
         }
     }
     v
@@ -158,7 +181,9 @@ fn is_ulid(v: &str) -> bool {
 }
 
 pub fn run_case(case: &Case, prefix: Vec<u32>, profile: ChoiceProfile) -> Run {
-    let front = scen::addr(1, 8080);
+    let (fh2, bh2) = (case.pair.starts_with("h2"), case.pair.ends_with("h2"));
+    let pair = case.pair.clone();
+    let front = scen::addr(1, if fh2 { 8443 } else { 8080 });
     let back = scen::addr(2, 9090);
     let client_src = scen::addr(5, 0);
     let st = &case.setting;
@@ -167,12 +192,18 @@ pub fn run_case(case: &Case, prefix: Vec<u32>, profile: ChoiceProfile) -> Run {
     let id_name = st.sozu_id_header.clone().unwrap_or_else(|| "Sozu-Id".into());
 
     // ---- configuration
-    let mut setup = scen::simple_http(front, back);
+    let mut setup = if fh2 { scen::simple_https(front, back) } else { scen::simple_http(front, back) };
     setup.listener.elide_x_real_ip = Some(st.elide_x_real_ip);
     setup.listener.send_x_real_ip = Some(st.send_x_real_ip);
     setup.listener.sozu_id_header = st.sozu_id_header.clone();
     setup.listener.expect_proxy = st.proxy_source.is_some();
+    if let Some(t) = setup.tls.as_mut() {
+        t.listener.elide_x_real_ip = Some(st.elide_x_real_ip);
+        t.listener.send_x_real_ip = Some(st.send_x_real_ip);
+        t.listener.sozu_id_header = st.sozu_id_header.clone();
+    }
     setup.clusters[0].cluster.sticky_session = st.sticky;
+    setup.clusters[0].cluster.http2 = Some(bh2);
     if st.edits {
         setup.clusters[0].headers = vec![
             Header { position: HeaderPosition::Request as i32, key: "X-Added".into(), val: "by-sozu".into() },
@@ -181,53 +212,86 @@ pub fn run_case(case: &Case, prefix: Vec<u32>, profile: ChoiceProfile) -> Run {
             Header { position: HeaderPosition::Response as i32, key: "X-Resp-Delete".into(), val: String::new() },
         ];
     }
+    let lower = |l: &str| {
+        let (n, v) = split_header(l);
+        (n.to_ascii_lowercase(), v)
+    };
 
-    // ---- client bytes
-    let mut req = b"POST /a HTTP/1.1\r\nHost: a.io\r\n".to_vec();
-    if req_trailers.is_none() {
-        req = b"GET /a HTTP/1.1\r\nHost: a.io\r\n".to_vec();
-    }
-    for l in &req_lines {
-        req.extend_from_slice(l.as_bytes());
-        req.extend_from_slice(b"\r\n");
-    }
-    if let Some(tr) = &req_trailers {
-        req.extend_from_slice(b"Transfer-Encoding: chunked\r\n\r\n5\r\nhello\r\n0\r\n");
-        for t in tr {
-            req.extend_from_slice(t.as_bytes());
+    // ---- client
+    let announced: Option<SocketAddr> = st.proxy_source.as_ref().map(|s| s.parse().unwrap());
+    let mut client_script = vec![Step::Connect { to: front, from: Some(client_src) }];
+    if fh2 {
+        client_script.push(Step::StartTls { sni: "a.io".into(), alpn: vec!["h2".into()] });
+        client_script.push(Step::ExpectHandshake);
+        client_script.push(Step::H2Start { settings: vec![(h2::S_ENABLE_PUSH, 0)], policy: h2::WindowPolicy::Eager });
+        client_script.push(Step::H2Await(H2Cond::PeerSettings));
+        let mut hs: Vec<(String, String)> = vec![(":method".into(), if req_trailers.is_some() { "POST" } else { "GET" }.into()), (":scheme".into(), "https".into()), (":path".into(), "/a".into()), (":authority".into(), "a.io".into())];
+        hs.extend(req_lines.iter().map(|l| lower(l)).filter(|(n, _)| n != "trailer"));
+        client_script.push(Step::H2Headers { stream: 1, headers: hs, end_stream: req_trailers.is_none(), continuation_at: None });
+        if let Some(tr) = &req_trailers {
+            client_script.push(Step::H2Data { stream: 1, bytes: b"hello".to_vec(), end_stream: false, frame_size: 16384, ignore_window: false });
+            client_script.push(Step::H2Headers { stream: 1, headers: tr.iter().map(|l| lower(l)).collect(), end_stream: true, continuation_at: None });
+        }
+        client_script.push(Step::H2Await(H2Cond::StreamDone(1)));
+    } else {
+        let mut req = b"POST /a HTTP/1.1\r\nHost: a.io\r\n".to_vec();
+        if req_trailers.is_none() {
+            req = b"GET /a HTTP/1.1\r\nHost: a.io\r\n".to_vec();
+        }
+        for l in &req_lines {
+            req.extend_from_slice(l.as_bytes());
             req.extend_from_slice(b"\r\n");
         }
-        req.extend_from_slice(b"\r\n");
-    } else {
-        req.extend_from_slice(b"\r\n");
+        if let Some(tr) = &req_trailers {
+            req.extend_from_slice(b"Transfer-Encoding: chunked\r\n\r\n5\r\nhello\r\n0\r\n");
+            for t in tr {
+                req.extend_from_slice(t.as_bytes());
+                req.extend_from_slice(b"\r\n");
+            }
+            req.extend_from_slice(b"\r\n");
+        } else {
+            req.extend_from_slice(b"\r\n");
+        }
+        let mut wire = vec![];
+        if let Some(src) = announced {
+            wire.extend_from_slice(&proxy_v2(src, front));
+        }
+        let head_len = wire.len();
+        wire.extend_from_slice(&req);
+        client_script.push(Step::Send { splits: vec![1, head_len.max(1), head_len + 20, wire.len() / 2, wire.len() - 1], bytes: wire });
+        client_script.push(Step::ExpectH1 { count: 1, responses: true });
     }
-    let mut resp = b"HTTP/1.1 200 OK\r\nContent-Length: 4\r\n".to_vec();
-    for l in &resp_lines {
-        resp.extend_from_slice(l.as_bytes());
-        resp.extend_from_slice(b"\r\n");
-    }
-    resp.extend_from_slice(b"\r\nbody");
-    let mut client_script = vec![Step::Connect { to: front, from: Some(client_src) }];
-    let announced: Option<SocketAddr> = st.proxy_source.as_ref().map(|s| s.parse().unwrap());
-    let mut wire = vec![];
-    if let Some(src) = announced {
-        wire.extend_from_slice(&proxy_v2(src, front));
-    }
-    let head_len = wire.len();
-    wire.extend_from_slice(&req);
-    client_script.push(Step::Send { splits: vec![1, head_len.max(1), head_len + 20, wire.len() / 2, wire.len() - 1], bytes: wire });
-    client_script.push(Step::ExpectH1 { count: 1, responses: true });
     client_script.push(Step::Done);
-    let backend_script = vec![Step::Accept, Step::ExpectH1 { count: 1, responses: false }, Step::Send { splits: vec![1, resp.len() / 2], bytes: resp.clone() }, Step::Done];
+    // ---- backend
+    let backend_script = if bh2 {
+        let mut hs: Vec<(String, String)> = vec![(":status".into(), "200".into()), ("content-length".into(), "4".into())];
+        hs.extend(resp_lines.iter().map(|l| lower(l)));
+        vec![
+            Step::Accept,
+            Step::H2Start { settings: vec![], policy: h2::WindowPolicy::Eager },
+            Step::H2Await(H2Cond::StreamDone(1)),
+            Step::H2Headers { stream: 1, headers: hs, end_stream: false, continuation_at: None },
+            Step::H2Data { stream: 1, bytes: b"body".to_vec(), end_stream: true, frame_size: 16384, ignore_window: false },
+            Step::Done,
+        ]
+    } else {
+        let mut resp = b"HTTP/1.1 200 OK\r\nContent-Length: 4\r\n".to_vec();
+        for l in &resp_lines {
+            resp.extend_from_slice(l.as_bytes());
+            resp.extend_from_slice(b"\r\n");
+        }
+        resp.extend_from_slice(b"\r\nbody");
+        vec![Step::Accept, Step::ExpectH1 { count: 1, responses: false }, Step::Send { splits: vec![1, resp.len() / 2], bytes: resp.clone() }, Step::Done]
+    };
     let backend = Peer::server("backend", back, backend_script);
     let client = Peer::client("client", client_script);
-    let ws = WorkerSetup { config: worker::server_config(|_| {}), initial: scen::http_state(&setup) };
-    let (mut exec, create_err) = worker::run_worker(ws, vec![backend, client], vec![MainStep::AwaitPeers], profile, prefix, 300);
+    let ws = WorkerSetup { config: worker::server_config(|c| c.buffer_size = 16393), initial: scen::http_state(&setup) };
+    let (mut exec, create_err) = worker::run_worker(ws, vec![backend, client], vec![MainStep::AwaitPeersFor { ms: 20_000 }], profile, prefix, 300);
     if let Some(e) = create_err {
         crate::common::machinery_error(&format!("worker creation failed: {e}"));
     }
     let mut violations: Vec<(String, String)> = vec![];
-    let mut flag = |k: String, d: String| violations.push((format!("C13|h1-h1|{k}"), d));
+    let mut flag = |k: String, d: String| violations.push((format!("C13|{pair}|{k}"), d));
     if let Some(p) = &exec.subject_panic {
         flag("worker-panic".into(), format!("worker panicked: {p}"));
     }
@@ -238,20 +302,91 @@ pub fn run_case(case: &Case, prefix: Vec<u32>, profile: ChoiceProfile) -> Run {
     let real_peer: SocketAddr = announced.or(c.conn.local_addr()).unwrap_or(client_src);
     let peer_ip = real_peer.ip().to_string();
     let c_port = c.conn.local_addr().map(|a| a.port());
-    let (reqs, _, rerr) = h1::parse_all(&b.conn.rx, false, true);
-    let (resps, _, perr) = h1::parse_all(&c.conn.rx, true, true);
-    let mut obs = format!("end={end:?} reqs={} resps={} rerr={rerr:?} perr={perr:?}", reqs.len(), resps.len());
+    // ---- what each side received, protocol-independent: (fields, trailers, body)
+    type Seen = (Vec<(String, String)>, Vec<(String, String)>, Vec<u8>);
+    let mut h2_rules = |who: &str, blocks: &[Vec<(String, String)>], request: bool, flag: &mut dyn FnMut(String, String)| {
+        // RFC 9113 section 8.2 / 8.3: what sozu writes on an HTTP/2 connection
+        for (bi, block) in blocks.iter().enumerate() {
+            let mut regular_seen = false;
+            let mut pseudo: Vec<&str> = vec![];
+            for (n, v) in block {
+                if n.starts_with(':') {
+                    if regular_seen || bi > 0 {
+                        flag(format!("h2-fields:{who}:pseudo-header-misplaced"), format!("{n} after a regular field or in trailers: {block:?}"));
+                    }
+                    if pseudo.contains(&n.as_str()) {
+                        flag(format!("h2-fields:{who}:pseudo-header-duplicated"), format!("{n} twice: {block:?}"));
+                    }
+                    pseudo.push(n);
+                    let legal: &[&str] = if request { &[":method", ":scheme", ":path", ":authority"] } else { &[":status"] };
+                    if !legal.contains(&n.as_str()) {
+                        flag(format!("h2-fields:{who}:unknown-pseudo-header"), format!("{n}: {v}"));
+                    }
+                    continue;
+                }
+                regular_seen = true;
+                if n.bytes().any(|b| b.is_ascii_uppercase()) {
+                    flag(format!("h2-fields:{who}:upper-case-name"), format!("field name {n:?} on an HTTP/2 connection"));
+                }
+                let l = n.to_ascii_lowercase();
+                if ["connection", "keep-alive", "proxy-connection", "transfer-encoding", "upgrade"].contains(&l.as_str()) || (l == "te" && !v.eq_ignore_ascii_case("trailers")) {
+                    flag(format!("h2-fields:{who}:connection-specific:{l}"), format!("connection-specific field {n}: {v} crossed into HTTP/2"));
+                }
+                if v.bytes().any(|b| b == b'\r' || b == b'\n' || b == 0) {
+                    flag(format!("h2-fields:{who}:control-byte-in-value"), format!("{n}: {v:?}"));
+                }
+            }
+            if bi == 0 && request && !([":method", ":scheme", ":path"].iter().all(|p| pseudo.contains(p))) {
+                flag(format!("h2-fields:{who}:pseudo-header-missing"), format!("request block without :method / :scheme / :path: {block:?}"));
+            }
+        }
+    };
+    let backend_saw: Option<Seen> = if bh2 {
+        b.h2.as_ref().and_then(|ep| {
+            for e in &ep.protocol_errors {
+                flag("h2-backend-obligation".into(), format!("towards the h2c backend: {e}"));
+            }
+            ep.streams.get(&1).filter(|s| s.end_stream && !s.headers.is_empty()).map(|s| {
+                h2_rules("backend", &s.headers, true, &mut flag);
+                (s.headers[0].clone(), s.headers.get(1).cloned().unwrap_or_default(), s.body.clone())
+            })
+        })
+    } else {
+        h1::parse_all(&b.conn.rx, false, true).0.first().map(|m| (m.headers.clone(), m.trailers.clone(), m.body.clone()))
+    };
+    let client_saw: Option<Seen> = if fh2 {
+        c.h2.as_ref().and_then(|ep| {
+            for e in &ep.protocol_errors {
+                flag("h2-client-obligation".into(), format!("towards the HTTP/2 client: {e}"));
+            }
+            ep.streams.get(&1).filter(|s| s.end_stream && !s.headers.is_empty()).map(|s| {
+                h2_rules("client", &s.headers, false, &mut flag);
+                (s.headers[0].clone(), s.headers.get(1).cloned().unwrap_or_default(), s.body.clone())
+            })
+        })
+    } else {
+        h1::parse_all(&c.conn.rx, true, true).0.first().map(|m| (m.headers.clone(), m.trailers.clone(), m.body.clone()))
+    };
+    drop(h2_rules);
+    if std::env::var("C01_DUMP").is_ok() {
+        eprintln!("---- backend rx ({} bytes):\n{}", b.conn.rx.len(), String::from_utf8_lossy(&b.conn.rx[..b.conn.rx.len().min(2000)]).replace('\r', "\\r"));
+        eprintln!("---- client rx ({} bytes):\n{}", c.conn.rx.len(), String::from_utf8_lossy(&c.conn.rx[..c.conn.rx.len().min(2000)]).replace('\r', "\\r"));
+    }
+    let mut obs = format!("end={end:?} backend_saw={} client_saw={}", backend_saw.is_some(), client_saw.is_some());
     let req_tag = &case.request;
     let set_tag = &st.name;
+    let scheme = if fh2 { "https" } else { "http" };
 
     // ================= request direction
-    match reqs.first() {
-        None => flag(format!("request:{req_tag}:not-delivered"), format!("setting {set_tag}: the backend received no complete request ({} bytes, {rerr:?})", b.conn.rx.len())),
-        Some(m) => {
+    match &backend_saw {
+        None => flag(format!("request:{req_tag}:not-delivered"), format!("setting {set_tag}: the backend received no complete request ({} bytes)", b.conn.rx.len())),
+        Some((m_headers, m_trailers, m_body)) => {
             let client_headers: Vec<(String, String)> = req_lines.iter().map(|l| split_header(l)).collect();
-            let framing = ["host", "connection", "content-length", "transfer-encoding", "keep-alive", "te", "trailer"];
-            let mut got: Vec<(String, String)> = m.headers.iter().filter(|(n, _)| !framing.contains(&n.to_ascii_lowercase().as_str())).cloned().collect();
-            obs.push_str(&format!(" backend_headers={got:?} trailers={:?}", m.trailers));
+            // hop-by-hop fields (and what `Connection` nominates) may or may not be forwarded to an
+            // HTTP/1.1 backend; towards HTTP/2 they are judged by `h2_rules` above
+            let framing = ["host", "connection", "content-length", "transfer-encoding", "keep-alive", "te", "trailer", "proxy-connection", "x-hop"];
+            let mut got: Vec<(String, String)> = m_headers.iter().filter(|(n, _)| !n.starts_with(':') && !framing.contains(&n.to_ascii_lowercase().as_str())).cloned().collect();
+            obs.push_str(&format!(" backend_headers={got:?} trailers={m_trailers:?}"));
             // ---- expected transformation of the client's list
             let last_of = |name: &str| client_headers.iter().rposition(|(n, _)| n.eq_ignore_ascii_case(name));
             let (xff_at, fwd_at) = (last_of("x-forwarded-for"), last_of("forwarded"));
@@ -302,7 +437,7 @@ pub fn run_case(case: &Case, prefix: Vec<u32>, profile: ChoiceProfile) -> Run {
                 additions.push(("Forwarded", Box::new(|v| forwarded_names(v, &real_peer)), "an element naming the peer"));
             }
             if !has("x-forwarded-proto") {
-                additions.push(("X-Forwarded-Proto", Box::new(|v| v == "http"), "the listener's scheme"));
+                additions.push(("X-Forwarded-Proto", Box::new(|v| v == scheme), "the listener's scheme"));
             }
             if !has("x-forwarded-port") {
                 additions.push(("X-Forwarded-Port", Box::new(|v| v == port), "the listener's port"));
@@ -342,34 +477,43 @@ pub fn run_case(case: &Case, prefix: Vec<u32>, profile: ChoiceProfile) -> Run {
             }
             // ---- exactly one correlation and one request id
             for (name, label) in [(id_name.as_str(), "correlation"), ("X-Request-Id", "request-id")] {
-                let n = m.headers_named(name).len();
+                let named: Vec<&String> = m_headers.iter().filter(|(n, _)| n.eq_ignore_ascii_case(name)).map(|(_, v)| v).collect();
+                let n = named.len();
                 if n != 1 {
-                    flag(format!("request:{req_tag}:{n}-{label}-headers"), format!("setting {set_tag}: the backend request carries {n} {name} fields: {:?}", m.headers_named(name)));
+                    flag(format!("request:{req_tag}:{n}-{label}-headers"), format!("setting {set_tag}: the backend request carries {n} {name} fields: {named:?}"));
+                }
+            }
+            // an HTTP/2 client's cookie crumbs are joined before they enter an HTTP/1.1 connection (RFC 9113 section 8.2.3)
+            if fh2 && !bh2 {
+                let n = m_headers.iter().filter(|(n, _)| n.eq_ignore_ascii_case("cookie")).count();
+                if n > 1 {
+                    flag(format!("request:{req_tag}:cookie-crumbs-not-joined"), format!("setting {set_tag}: the HTTP/1.1 backend request carries {n} Cookie fields"));
                 }
             }
             // ---- trailers cannot carry proxy metadata
-            for (n, v) in &m.trailers {
+            for (n, v) in m_trailers {
                 let l = n.to_ascii_lowercase();
                 if ["x-forwarded-for", "forwarded", "x-forwarded-proto", "x-forwarded-port", "x-request-id"].contains(&l.as_str()) || l == id_name.to_ascii_lowercase() || (l == "x-real-ip" && st.elide_x_real_ip) {
                     flag(format!("request:{req_tag}:metadata-in-trailer:{l}"), format!("setting {set_tag}: client trailer {n}: {v} reached the backend"));
                 }
             }
             if let Some(tr) = &req_trailers {
-                if m.body != b"hello" {
-                    flag(format!("request:{req_tag}:body-changed"), format!("body {:?}", String::from_utf8_lossy(&m.body)));
+                if m_body != b"hello" {
+                    flag(format!("request:{req_tag}:body-changed"), format!("body {:?}", String::from_utf8_lossy(m_body)));
                 }
+                // (RFC 9112 section 7.1.2 lets an intermediary that re-frames a message discard its trailers: their loss is not judged)
                 let _ = tr;
             }
         }
     }
 
     // ================= response direction
-    match resps.first() {
-        None => flag(format!("response:{}:not-delivered", case.response), format!("setting {set_tag}: the client received no complete response ({} bytes, {perr:?})", c.conn.rx.len())),
-        Some(m) => {
+    match &client_saw {
+        None => flag(format!("response:{}:not-delivered", case.response), format!("setting {set_tag}: the client received no complete response ({} bytes)", c.conn.rx.len())),
+        Some((m_headers, _, m_body)) => {
             let framing = ["connection", "content-length", "transfer-encoding", "keep-alive"];
             let backend_headers: Vec<(String, String)> = resp_lines.iter().map(|l| split_header(l)).collect();
-            let mut got: Vec<(String, String)> = m.headers.iter().filter(|(n, _)| !framing.contains(&n.to_ascii_lowercase().as_str())).cloned().collect();
+            let mut got: Vec<(String, String)> = m_headers.iter().filter(|(n, _)| !n.starts_with(':') && !framing.contains(&n.to_ascii_lowercase().as_str())).cloned().collect();
             obs.push_str(&format!(" client_headers={got:?}"));
             let mut want: Vec<(String, String)> = vec![];
             for (n, v) in &backend_headers {
@@ -401,14 +545,14 @@ pub fn run_case(case: &Case, prefix: Vec<u32>, profile: ChoiceProfile) -> Run {
                 let class = if got.len() > want.len() { "extra-or-duplicated-field" } else if got.len() < want.len() { "field-lost" } else { "field-changed" };
                 flag(format!("response:{}:{class}", case.response), format!("setting {set_tag}: after removing the documented additions the client sees {got:?}, the backend sent {want:?}"));
             }
-            if m.body != b"body" {
-                flag(format!("response:{}:body-changed", case.response), format!("body {:?}", String::from_utf8_lossy(&m.body)));
+            if m_body != b"body" {
+                flag(format!("response:{}:body-changed", case.response), format!("body {:?}", String::from_utf8_lossy(m_body)));
             }
         }
     }
     drop(flag);
     if end != End::Finished && violations.is_empty() {
-        violations.push(("C13|h1-h1|worker-not-finished".into(), format!("run ended {end:?}")));
+        violations.push((format!("C13|{}|worker-not-finished", case.pair), format!("run ended {end:?}")));
     }
     // the client's ephemeral port differs between executions
     let obs = match c_port {
@@ -457,7 +601,7 @@ pub fn run_item(tier: Tier, item: usize) -> ItemResult {
                 Err(status) => {
                     let mut r = super::c01::crashed_run(prefix, &status);
                     for v in r.violations.iter_mut() {
-                        v.0 = v.0.replace("C01|any", "C13|h1-h1");
+                        v.0 = v.0.replace("C01|any", &format!("C13|{}", c2.pair));
                     }
                     r
                 }
@@ -470,7 +614,7 @@ pub fn run_item(tier: Tier, item: usize) -> ItemResult {
     );
     let mut counters = BTreeMap::new();
     counters.insert("sim_executions".to_owned(), stats.executions);
-    ItemResult { item, label: format!("{}/{}/{}", case.setting.name, case.request, case.response), stats, violations, counters, sample: json!({"case": case}) }
+    ItemResult { item, label: format!("{}/{}/{}/{}", case.pair, case.setting.name, case.request, case.response), stats, violations, counters, sample: json!({"case": case}) }
 }
 
 pub fn run(ctx: &Ctx) -> Coverage {
